@@ -5,28 +5,30 @@ from lib.vlib import *
 
 META = {
     "property_id": "C08",
-    "technique": "Coq proof (termination, coverage, determinism and name-qualified sensitivity of the environment traversal) + reified-graph correspondence + edit-menu oracle on real loads",
+    "technique": "Coq proof (termination, coverage, determinism and sensitivity of the environment traversal) + reified-graph correspondence + edit-menu oracle on real loads",
     "level_text": "Theorems (Coq, all graphs): fingerprint_terminates (the traversal done by recursionPickler/envPickler under the "
                   "encoder's memo terminates on every function graph, recursion and mutual recursion included); "
                   "fingerprint_covers_reachable (the code of every reachable function is in the fingerprint); "
                   "fingerprint_deterministic (two rooted function graphs whose reachable parts are isomorphic -- equal names, codes and "
                   "mentioned functions in order, whatever the identities, listing order, graph size and unreachable rest -- have equal "
-                  "fingerprints; subsumes the former renaming-invariance theorem); iso_relates_every_reachable_function; "
-                  "fingerprint_sensitive_partial (equal fingerprints => the reachable parts are isomorphic, PROVIDED that in at least one "
-                  "of the two graphs no two different reachable functions share a name); fingerprint_sensitive_refuted (without that "
-                  "proviso the statement is false of the model: a function in progress is denoted by its name alone -- witness "
-                  "collide_g1/collide_g2, reproduced on the implementation, see the C08 finding 'same-named functions in progress'). Tie: the harness "
-                  "reifies the live function graph of each program's target and the Coq model must reproduce the expansion tree seen "
-                  "in the implementation's decoded fingerprint. Oracles on the implementation, each load in its own process: "
+                  "fingerprints); fingerprint_sensitive (the converse, no side condition: equal fingerprints => the reachable parts are "
+                  "isomorphic, so every difference in a reachable code or in which function a reference denotes shows; it rests on the "
+                  "placeholder of a function in progress carrying the function's ordinal, function.go since 7738be5 -- the finding of the "
+                  "earlier, name-only model: same-named functions in progress); iso_relates_every_reachable_function. Tie: the harness "
+                  "replays the encoder's traversal over the live function graph of each program's target and the Coq model must reproduce "
+                  "the token tree seen in the implementation's decoded fingerprint: expanded function environments, placeholders WITH their "
+                  "ordinals, repeated (memo-referenced) function environments with the ordinal of the function referred to. "
+                  "Oracles on the implementation, each load in its own process: "
                   "terminates without error/crash/hang for recursion, mutual recursion, closures, defaults, nested defs, lambdas, "
                   ">1000-element and cyclic data, every predeclared value; identical text re-loaded (other file order, other "
-                  "GOMAXPROCS) gives the identical stamp; every edit of a menu of referenced codes/values changes it (as the engine "
+                  "GOMAXPROCS) gives the identical stamp; every edit of a menu of referenced codes/values/references changes it (as the engine "
                   "compares it: diffEnv), every cosmetic / other-package edit does not.",
     "level_note": "Trusted: Coq kernel; the model abstracts values to the function objects they mention (byte-level codec = C07) and a "
                   "function's own payload (bytecode, constants, names, non-function values) to one code identity, so model-level "
-                  "sensitivity is sensitivity to that identity and to the reference structure; the model's memo reference carries the "
-                  "name only (the stamp carries a memo index), which is why names_identify is also needed for finished functions; "
-                  "the Starlark compiler is not modelled (the reifier reads live objects through the same accessors envPickler uses); "
+                  "sensitivity is sensitivity to that identity and to the reference structure; a memo reference is modelled by the ordinal "
+                  "of the function referred to (the stamp has a memo id, the decoded value the shared object: both determine it); "
+                  "the Starlark compiler is not modelled (the reifier reads live objects through the same accessors envPickler uses and "
+                  "replays the encoder's memo for containers and code objects); "
                   "determinism and sensitivity for value kinds are decided by the harness on a fixed program menu, not by a theorem.",
     "design_ref": "DESIGN.md §6 C08",
 }
@@ -35,21 +37,27 @@ HDR = "From Dawn Require Import Fingerprint.Model Fingerprint.Run.\nOpen Scope N
 
 
 def parse_skel(s):
-    """F12(F3()F4()) -> Coq list of Sk"""
+    """F12(F3()R1M0) -> Coq list of sk: F<label>(...) expanded function, R<ordinal> placeholder, M<ordinal> memo reference"""
     pos = 0
 
     def items():
         nonlocal pos
         out = []
-        while pos < len(s) and s[pos] == "F":
-            m = re.match(r"F(\d+)\(", s[pos:])
-            pos += m.end()
-            ch = items()
-            assert s[pos] == ")"
-            pos += 1
-            out.append("(Sk %s %s)" % (m.group(1), "[" + "; ".join(ch) + "]" if ch else "(@nil sk)"))
+        while pos < len(s) and s[pos] in "FRM":
+            if s[pos] == "F":
+                m = re.match(r"F(\d+)\(", s[pos:])
+                pos += m.end()
+                ch = items()
+                assert s[pos] == ")"
+                pos += 1
+                out.append("(Sk %s %s)" % (m.group(1), "[" + "; ".join(ch) + "]" if ch else "(@nil sk)"))
+            else:
+                m = re.match(r"([RM])(\d+)", s[pos:])
+                pos += m.end()
+                out.append("(%s %s)" % ("SkRec" if m.group(1) == "R" else "SkRef", m.group(2)))
         return out
     r = items()
+    assert pos == len(s), "unparsed skeleton tail: " + s[pos:pos + 40]
     return "[" + "; ".join(r) + "]" if r else "(@nil sk)"
 
 
@@ -90,7 +98,7 @@ def run(ctx):
     ctx.coverage["distinct_nontrivial"] = len({tuple(c[:2]) for c in cases})
     ctx.coverage["rule"] = ("fixed menu of %d BUILD programs (plain, recursion, mutual recursion, self-recursive target, closure, defaults, "
                             "nested defs + lambda + comprehension, helper module, 2500-element and cyclic data, every predeclared value, "
-                            "target reference, function-keyed dict) plus seeded random call graphs of 2-7 helpers (self loops, mutual recursion, a helper in a global list, one as a default argument; every helper's body edited in turn, reachable or not), each loaded in its own process: base load, two re-loads of the identical "
+                            "target reference, function-keyed dict, two/three same-named closures and lambdas in progress, a helper shared through a list) plus seeded random call graphs of 2-7 helpers (self loops, mutual recursion, a helper in a global list, one as a default argument; every helper's body edited in turn, reachable or not), each loaded in its own process: base load, two re-loads of the identical "
                             "text (shuffled file creation order, GOMAXPROCS 1 and 4), then one load per edit of its menu (relevant edits must "
                             "change the fingerprint as diffEnv sees it, irrelevant ones must not); a case = (program, edit)" % len({c[0] for c in cases}))
     ctx.coverage["correspondence"]["distribution"] = {"programs": len({c[0] for c in cases}), "edits": len(cases), "graphs": len(graphs)}
